@@ -42,7 +42,7 @@ Definition flinv (st : flstate) : Prop := fl_size st = sumN (fl_buf st) /\ (fl_b
 
 Lemma flstep_inv lim st e st' : 0 < lim -> flinv st -> flstep lim st e = Some st' -> flinv st'.
 Proof.
-  intros L (S & P) ST. destruct e as [sz|]; cbn [flstep] in ST.
+  intros L (S & P) ST. unfold flinv. destruct e as [sz|]; cbn [flstep] in ST.
   - injection ST as <-. cbn [fl_buf fl_size fl_paused]. split.
     + rewrite sumN_app, S. cbn. lia.
     + intro E. destruct (fl_buf st); discriminate E.
